@@ -6,10 +6,10 @@ class Engine(DbEngine):
     prop = 'C04'
     profiles = ('debug', 'release')
     weights = {'new': 8, 'addr': 2, 'resubmit': 1, 'delete': 1.5, 'remove': 1.5, 'reopen': 1.2, 'vanish': 0.2, 'giftwrap': 0.2}
-    aspects = {'stats.bytes', 'store.offset', 'reopen', 'store.result', 'ids.hash', 'offs', 'reopen-preserves', 'ids.has'}
+    aspects = {'stats.bytes', 'store.offset', 'reopen', 'store.result', 'ids.hash', 'offs', 'reopen-preserves', 'ids.has', 'rebuild', 'rebuild-preserves'}
     quick = (120, 40)
     thorough = (2500, 150)
-    rule = 'histories of store/remove/delete/reopen with content sizes straddling the 2048-byte debug chunk (10, 300, 1500, 2040, 2047, 2048, 4200 bytes; multi-chunk; and contents of 65535..131072 bytes, beyond every 16-bit length) in BOTH build profiles (debug: a file growth every few stores; release: 4 MiB chunks); after EVERY op every offset ever returned by a successful store is read back and compared (hash) with what was stored, every id is looked up; reopen inserted at random positions. oracle: read-back equals stored bytes, offsets pairwise distinct; correspondence: exact offsets and end marker vs the model. non-trivial = history with >= 2 stores'
+    rule = 'histories of store/remove/delete/reopen with content sizes straddling the 2048-byte debug chunk (10, 300, 1500, 2040, 2047, 2048, 4200 bytes; multi-chunk; and contents of 65535..131072 bytes, beyond every 16-bit length) in BOTH build profiles (debug: a file growth every few stores; release: 4 MiB chunks); after EVERY op every offset ever returned by a successful store is read back and compared (hash) with what was stored, every id is looked up; reopen inserted at random positions; rebuild followed by continued use of the returned store across further growth steps. oracle: read-back equals stored bytes, offsets pairwise distinct; correspondence: exact offsets and end marker vs the model. non-trivial = history with >= 2 stores'
     trusted = DbEngine.db_trusted
     assumptions = ['that bytes already written survive set_len/mremap growth is an OS fact: assumed by the model, observed by the harness']
 
@@ -60,4 +60,25 @@ class Engine(DbEngine):
             g.ops.append(("reopen",))
             g.g_store_new()
             out.append(("large-content", g.render()))
+        # rebuild, then keep using the store the rebuild returned until its event map has to grow again
+        # (and again), reading everything back after every step
+        for i in range(8 if tier == "quick" else 120):
+            sub = random.Random(rng.getrandbits(64))
+            g = HistGen(sub, {"new": 1}, 0).run()
+            def put(n, size):
+                for _ in range(n):
+                    e = g.new_event(kind=1, pk=sub.choice(AUTHORS), tags=[])
+                    e["content"] = b"r" * size
+                    e["id"] = fake_id(e)
+                    g.op_store(e)
+                    g.note_event(e)
+            put(sub.choice([3, 6, 12]), sub.choice([300, 900, 1700]))
+            if sub.random() < 0.5 and g.events:
+                g.ops.append(("remove", sub.choice(g.events)["id"]))
+            g.ops.append(("rebuild",))
+            put(sub.choice([4, 8, 14]), sub.choice([300, 900, 1700]))
+            if sub.random() < 0.5:
+                g.ops.append(("reopen",))
+                put(2, 1200)
+            out.append(("rebuild-then-grow", g.render()))
         return out
